@@ -10,6 +10,7 @@ import (
 	_ "verif/harness/c07"
 	_ "verif/harness/c08"
 	_ "verif/harness/c09"
+	_ "verif/harness/c10"
 	_ "verif/harness/c11"
 	_ "verif/harness/c12"
 	_ "verif/harness/c13"
